@@ -147,6 +147,90 @@ def _record_edge(parent, child, mod_config):
     _emit(rec)
 
 
+def _host_realizable(ir, seen=None):
+    """only host memories, no hardware instructions, only externs the machine knows in value mode Z"""
+    from exo.core.LoopIR import LoopIR
+    seen = seen if seen is not None else set()
+    if id(ir) in seen:
+        return True
+    seen.add(id(ir))
+    if ir.instr is not None:
+        return False
+    okmem = {"DRAM", "DRAM_STACK", "DRAM_STATIC"}
+    for a in ir.args:
+        if a.mem is not None and a.mem.name() not in okmem:
+            return False
+    ok = [True]
+
+    def ex(e):
+        if isinstance(e, LoopIR.Extern):
+            if e.f.name() not in ("relu", "select", "fmaxf", "fminf", "clamp", "abs"):
+                ok[0] = False
+            for x in e.args:
+                ex(x)
+        elif isinstance(e, LoopIR.BinOp):
+            ex(e.lhs)
+            ex(e.rhs)
+        elif isinstance(e, LoopIR.USub):
+            ex(e.arg)
+
+    def st(ss):
+        for s in ss:
+            if isinstance(s, LoopIR.Alloc):
+                if s.mem is not None and s.mem.name() not in okmem:
+                    ok[0] = False
+            elif isinstance(s, (LoopIR.Assign, LoopIR.Reduce, LoopIR.WriteConfig)):
+                ex(s.rhs)
+            elif isinstance(s, LoopIR.Call):
+                if not _host_realizable(s.f, seen):
+                    ok[0] = False
+            elif isinstance(s, LoopIR.If):
+                st(s.body)
+                st(s.orelse)
+            elif isinstance(s, LoopIR.For):
+                st(s.body)
+    st(ir.body)
+    return ok[0]
+
+
+def _c_unit_of_last():
+    """C02/C08 on the repository's tests: the last Procedure a test created is compiled by the real backend, built with
+    gcc + sanitizers, run on the bounded inputs and packaged as an ExoCTrace unit (spec/ExoMachine.tla, mode Z)."""
+    import shutil
+    import tempfile
+    last = _STATE.get("last_proc")
+    budget = _STATE.get("c_budget", 0)
+    if last is None or budget <= 0:
+        return
+    _STATE["last_proc"] = None
+    rec = {"kind": "cunit", "prog": "repo:" + _STATE["test"], "how": "final procedure of the test"}
+    try:
+        ir = last._loopir_proc
+        if not _host_realizable(ir):
+            return
+        from .cunits import build_c_unit
+        from .export import ExportError
+        rec["text"] = str(last)[:4000]
+        d = tempfile.mkdtemp(prefix="testrec_c_", dir=os.environ.get("VERIF_SCRATCH", "/var/tmp"))
+        try:
+            rng = random.Random(f"c/{_STATE['test']}")
+            unit, info = build_c_unit(rec["prog"], last, rng, int(os.environ.get("TESTREC_CAP", "3")), d,
+                                      tag="t%d" % _STATE["n"], zrange=(1, 12))
+            if sum(len(b["cells"]) for i in unit["inputs"] for b in i["a"]["bufs"]) > 6000:
+                return
+            rec.update({"status": "compiled", "unit": unit, "info": info})
+            _STATE["c_budget"] = budget - 1
+        except ExportError as e:
+            rec.update({"status": "export-error", "msg": str(e)[:160]})
+        except Exception as e:
+            rec.update({"status": "compile-error", "exc": type(e).__name__, "msg": str(e)[:200]})
+        finally:
+            shutil.rmtree(d, ignore_errors=True)
+    except Exception as e:
+        rec.update({"status": "recorder-error", "msg": f"{type(e).__name__}: {str(e)[:160]}"})
+    _emit(rec)
+
+
 def _install():
     import exo.API as API
     orig_init = API.Procedure.__init__
@@ -161,6 +245,8 @@ def _install():
             if os.environ.get("TESTREC_PURITY", "1") == "1":
                 _STATE["procs"].append((self, _fp(self), _STATE["test"]))
                 _session_event(_opname(), True)
+            if _STATE["test"] != "?" and _provenance_eq_Procedure is not None:
+                _STATE["last_proc"] = self
             if os.environ.get("TESTREC_TEXTS", "0") == "1":
                 try:
                     dg = hashlib.sha1(str(self).encode()).hexdigest()[:12]
@@ -269,6 +355,13 @@ if _OUT:
     def pytest_runtest_teardown(item, nextitem):
         if _STATE.get("texts"):
             _emit({"kind": "texts", "test": item.nodeid, "digests": _STATE.pop("texts")})
+        if int(os.environ.get("TESTREC_C", "0")) > 0:
+            _STATE.setdefault("c_budget", int(os.environ["TESTREC_C"]))
+            _STATE["busy"] = True
+            try:
+                _c_unit_of_last()
+            finally:
+                _STATE["busy"] = False
         _session_close()
         _STATE["procs"] = [t for t in _STATE["procs"] if t[2] == "?"]
         _STATE["test"] = "?"
@@ -302,7 +395,7 @@ THOROUGH_FILES = QUICK_FILES + ["tests/test_halide_ops.py", "tests/test_range_an
 
 
 def run_tests(files, workdir, repo=None, cap=6, timeout=1500, fwd=True, units=True, purity=True, max_cells=600,
-              edits=False, claims=False, trace_ops="", texts=False, extra_env=None):
+              edits=False, claims=False, trace_ops="", texts=False, extra_env=None, c_units=0):
     """Run each test file (optionally split into shards by -k-less item slicing) under the recorder.
     -> (records, per-file info)."""
     from .common import NCPU, REPO, MachineryError
@@ -319,7 +412,7 @@ def run_tests(files, workdir, repo=None, cap=6, timeout=1500, fwd=True, units=Tr
                     "TESTREC_UNITS": "1" if units else "0", "TESTREC_PURITY": "1" if purity else "0",
                     "TESTREC_MAX_CELLS": str(max_cells), "TESTREC_EDITS": "1" if edits else "0",
                     "TESTREC_CLAIMS": "1" if claims else "0", "TESTREC_TRACE_OPS": trace_ops,
-                    "TESTREC_TEXTS": "1" if texts else "0"})
+                    "TESTREC_TEXTS": "1" if texts else "0", "TESTREC_C": str(c_units)})
         env.update(extra_env or {})
         env.pop("PYTEST_ADDOPTS", None)
         cmd = [sys.executable, "-m", "pytest", "-q", "-x" if False else "-q", "-p", "no:cacheprovider",
@@ -360,11 +453,11 @@ def run_tests(files, workdir, repo=None, cap=6, timeout=1500, fwd=True, units=Tr
 
 
 def test_edges(files, workdir, cap=4, max_cells=600, fwd=False, purity=False, units=True, timeout=1500, edits=False,
-               claims=False, trace_ops=""):
+               claims=False, trace_ops="", c_units=0):
     """Recorded derivation edges of the repository's tests in the record format of edgecheck.decide_edges
     (prog = test id, args = ordinal of the step in its test file, facts = {}).  -> (edges, info, other records)"""
     recs, info = run_tests(files, workdir, cap=cap, fwd=fwd, units=units, purity=purity, max_cells=max_cells,
-                           timeout=timeout, edits=edits, claims=claims, trace_ops=trace_ops)
+                           timeout=timeout, edits=edits, claims=claims, trace_ops=trace_ops, c_units=c_units)
     edges, other = [], []
     seen = set()
     for r in recs:
